@@ -47,6 +47,11 @@ struct Wait {
     d: u64,
     /// the awaited event is produced this long after the wait started (None = never)
     satisfy_after: Option<u64>,
+    /// channel / semaphore waits: an earlier event is taken without blocking right before the
+    /// timed wait starts, while its producer may still be inside send / post (value published,
+    /// waiter not looked at yet): the producer's late wake-up then hits the NEW wait, which has
+    /// to go on waiting - a wake-up is not a time-out
+    stale_wake: bool,
 }
 
 #[derive(Debug)]
@@ -60,14 +65,14 @@ fn gen(seed: u64) -> Params {
     let mut rt = RtCfg::gen(&mut r, 3);
     let n = r.range(1, 4) as usize;
     let long = r.chance(1, 12);
-    let mut actors = Vec::new();
+    let mut actors: Vec<(Ctx, Vec<Wait>)> = Vec::new();
     // equal intervals share one timer list, different ones compete in the heap: draw from a
     // small per-run palette so that both happen
     let palette: Vec<u64> = (0..3).map(|_| *r.pick(&DURS)).collect();
     for _ in 0..n {
         let ctx = Ctx::gen(&mut r);
         let k = r.range(1, 3) as usize;
-        let waits = (0..k)
+        let waits: Vec<Wait> = (0..k)
             .map(|_| {
                 let kind = match r.below(100) {
                     0..=24 => Kind::Sleep,
@@ -93,7 +98,7 @@ fn gen(seed: u64) -> Params {
                 } else {
                     None
                 };
-                Wait { kind, d, satisfy_after }
+                Wait { kind, d, satisfy_after, stale_wake: false }
             })
             .collect();
         actors.push((ctx, waits));
@@ -101,6 +106,14 @@ fn gen(seed: u64) -> Params {
     if long {
         // an hour of virtual time with a 10 ms poll would be 360 k idle rounds per worker
         rt.poll_ns = HOUR;
+    }
+    // drawn last: everything above is the same as before this field existed
+    for a in actors.iter_mut() {
+        for w in a.1.iter_mut() {
+            if matches!(w.kind, Kind::MpscRecv | Kind::MpmcRecv | Kind::Sem) && r.chance(1, 3) {
+                w.stale_wake = true;
+            }
+        }
     }
     Params { rt, actors }
 }
@@ -115,6 +128,18 @@ fn satisfier(after: u64, f: impl FnOnce() + Send + 'static) -> Actor {
         engine::sleep(after);
         f();
     })
+}
+
+/// take an early event without blocking (`try` returns true once it is there)
+fn take_early(who: &str, mut try_take: impl FnMut() -> bool) {
+    let mut spins = 0u32;
+    while !try_take() {
+        rt::relax();
+        spins += 1;
+        if spins > 20_000 {
+            violation(&format!("{}: the early event never arrived", who));
+        }
+    }
 }
 
 /// perform one timed wait; returns (timed_out, satisfied flag)
@@ -134,6 +159,17 @@ fn do_wait(w: &Wait, who: &str, helpers: &mut Vec<Actor>) -> bool {
         }
         Kind::MpscRecv => {
             let (tx, rx) = mpsc::channel::<u32>();
+            if w.stale_wake {
+                let tx3 = tx.clone();
+                helpers.push(rt::spawn_actor(Ctx::Thread, "early-sender", move || {
+                    let _ = tx3.send(5);
+                }));
+                take_early(who, || match rx.try_recv() {
+                    Ok(5) => true,
+                    Ok(v) => violation(&format!("received {} instead of the early 5", v)),
+                    Err(_) => false,
+                });
+            }
             if let Some(a) = w.satisfy_after {
                 let tx2 = tx.clone();
                 helpers.push(satisfier(a, move || {
@@ -152,6 +188,17 @@ fn do_wait(w: &Wait, who: &str, helpers: &mut Vec<Actor>) -> bool {
         }
         Kind::MpmcRecv => {
             let (tx, rx) = mpmc::channel::<u32>();
+            if w.stale_wake {
+                let tx3 = tx.clone();
+                helpers.push(rt::spawn_actor(Ctx::Thread, "early-sender", move || {
+                    let _ = tx3.send(5);
+                }));
+                take_early(who, || match rx.try_recv() {
+                    Ok(5) => true,
+                    Ok(v) => violation(&format!("received {} instead of the early 5", v)),
+                    Err(_) => false,
+                });
+            }
             if let Some(a) = w.satisfy_after {
                 let tx2 = tx.clone();
                 helpers.push(satisfier(a, move || {
@@ -170,6 +217,11 @@ fn do_wait(w: &Wait, who: &str, helpers: &mut Vec<Actor>) -> bool {
         }
         Kind::Sem => {
             let s = Arc::new(Semphore::new(0));
+            if w.stale_wake {
+                let s3 = s.clone();
+                helpers.push(rt::spawn_actor(Ctx::Thread, "early-poster", move || s3.post()));
+                take_early(who, || s.try_wait());
+            }
             if let Some(a) = w.satisfy_after {
                 let s2 = s.clone();
                 helpers.push(satisfier(a, move || {
